@@ -8,7 +8,7 @@ Two routes per group of facts:
 * STATIC (first; it also sees code no request reaches): the expected syntactic shape in the source (`ast`);
 * DYNAMIC (fallback when the shape is not recognised, e.g. after a behaviour-preserving rewrite): the same finite table is
   obtained by RUNNING the real code on a COMPLETE enumeration of the finite domain the table ranges over — every error
-  class x message {non-empty, ""} x nodes {none, without loc, one, two} x path {None, [], [key], [key, index], [index]} x
+  class x message {non-empty, ""} x nodes {none, without loc and source, source without loc, loc without source, one, two, mixed} x path {None, [], [key], [key, index], [index]} x
   extensions {absent, None, {}, non-empty} — and every abort site reached through real requests that end at that stage.
   The observed dictionaries must be EXACTLY those the table predicts (same keys, same order, same values) on the whole
   domain, otherwise the extraction fails (`Shape`) and the direct oracle on error objects supplies the failing input.
@@ -176,7 +176,7 @@ def static_aborts():
 
 DOMAIN_TEXT = "{\n  a\n  beta } # é"   # field `a` at offset 4 = (2, 3); field `beta` at offset 8 = (3, 3)
 MESSAGES = ["m", ""]
-NODE_KINDS = ["none", "noloc", "one", "two"]
+NODE_KINDS = ["none", "noloc", "source-noloc", "loc-nosource", "one", "two", "mixed"]
 PATHS = [None, [], ["a"], ["a", 0], [0]]
 EXT_KINDS = ["absent", "none", "empty", "one"]
 LOCATED_CLASSES = ["GraphQLLocatedError", "ValidationError", "VariableCoercionError", "CoercionError", "MultiCoercionError",
@@ -190,7 +190,10 @@ def domain_nodes(kind):
     doc = parse(DOMAIN_TEXT)
     a, b = doc.definitions[0].selection_set.selections
     assert a.loc[0] == 4 and b.loc[0] == 8
-    return {"none": None, "noloc": [_ast.Field(name=_ast.Name(value="x"))], "one": [a], "two": [a, b]}[kind]
+    src_noloc = _ast.Field(name=_ast.Name(value="x"), source=DOMAIN_TEXT, loc=None)      # parse(..., no_location=True)
+    loc_nosrc = _ast.Field(name=_ast.Name(value="x"), source=None, loc=(4, 5))
+    return {"none": None, "noloc": [_ast.Field(name=_ast.Name(value="x"))], "source-noloc": [src_noloc], "loc-nosource": [loc_nosrc],
+            "one": [a], "two": [a, b], "mixed": [src_noloc, a, loc_nosrc, b]}[kind]
 
 
 def make_error(cls, msg, node_kind, path, ext_kind):
@@ -226,7 +229,8 @@ def predicted_located(f, e, nk, path, ek):
     msg = str(e)
     if msg or f["locatedKeepsEmptyMessage"]:
         d["message"] = msg
-    locs = {"none": [], "noloc": [], "one": [(2, 3)], "two": [(2, 3), (3, 3)]}[nk]
+    locs = {"none": [], "noloc": [], "source-noloc": [], "loc-nosource": [], "one": [(2, 3)], "two": [(2, 3), (3, 3)],
+            "mixed": [(2, 3), (3, 3)]}[nk]
     if locs:
         d["locations"] = [{f["locatedLineKey"]: l, f["locatedColKey"]: c} for l, c in locs]
     if path:
